@@ -46,7 +46,9 @@ def run(ctx: Ctx) -> None:
                      ("D1.3", "inside the bin"),
                      ("D1.4", "ids"), ("D1.5", "bin numbering"),
                      ("D1.6", "storage type wide enough"),
-                     ("D1.7", "moves preserve pairwise non-overlap")):
+                     ("D1.7", "moves preserve pairwise non-overlap"),
+                     ("D1.8", "decode() binds the instance quantities to "
+                              "the kernel parameters")):
         ctx.rule(rid, txt)
     C = cols(ctx)
     acc = _constructor_accepts(ctx)
@@ -59,6 +61,7 @@ def run(ctx: Ctx) -> None:
             _move_lemma(ctx, repo.func(ENC + enc, kn), kind, C,
                         enc.endswith("2"))
         _decode_rules(ctx, dec, C, enc.endswith("2"))
+        _wrapper_binding(ctx, enc, dec)
     _dtype(ctx)
     ctx.exhaustive = True
     ctx.assumptions += [
@@ -736,3 +739,62 @@ def _fix_bin(c: tuple, bin_atom: tuple) -> tuple:
     if c[0] == "or":
         return c_or(*[_fix_bin(x, bin_atom) for x in c[1:]])
     return c
+
+
+# ------------------------------------------------------------------ D1.8
+def _wrapper_binding(ctx: Ctx, enc: str, dec: FuncInfo) -> None:
+    """Encoding.decode hands (x, y, instance, W, H) to the kernel as such."""
+    repo = ctx.repo
+    mod = repo.module(ENC + enc)
+    cls = next((c for c in mod.classes.values() if "decode" in c.methods),
+               None)
+    ctx.need(cls is not None, f"{enc}: encoding class with decode()")
+    m = cls.methods["decode"]
+    calls = [c for c in ast.walk(m.node) if isinstance(c, ast.Call)
+             and isinstance(c.func, ast.Name) and repo.resolve(
+                 mod, c.func.id) is dec]
+    problems = []
+    if len(calls) != 1 or calls[0].keywords or len(calls[0].args) != len(
+            dec.params):
+        problems.append("the kernel is not called once with all its "
+                        "parameters positionally")
+    else:
+        init = cls.methods.get("__init__")
+        inst_fields = set()
+        if init is not None:
+            ip = init.params[1] if len(init.params) > 1 else None
+            for n in ast.walk(init.node):
+                if isinstance(n, (ast.Assign, ast.AnnAssign)) and \
+                        n.value is not None and isinstance(
+                        n.value, ast.Name) and n.value.id == ip:
+                    tg = n.targets[0] if isinstance(n, ast.Assign) \
+                        else n.target
+                    if isinstance(tg, ast.Attribute):
+                        inst_fields.add(ast.unparse(tg))
+        for p, a in zip(dec.params, calls[0].args):
+            src = ast.unparse(a)
+            if p in (m.params[1], m.params[2]) or p in ("x", "y"):
+                want = {"x": m.params[1], "y": m.params[2]}.get(p, p)
+                if src != want:
+                    problems.append(f"kernel parameter `{p}` receives "
+                                    f"`{src}`")
+            elif p == "instance":
+                if src not in inst_fields:
+                    problems.append(f"kernel parameter `instance` receives "
+                                    f"`{src}`, not the encoding's instance")
+            elif p in ("bin_width", "bin_height"):
+                if not any(src == f"{f}.{p}" for f in inst_fields):
+                    problems.append(f"kernel parameter `{p}` receives "
+                                    f"`{src}`, not the instance's {p}")
+    # the number of bins returned by the kernel is stored in the packing
+    tg_ok = any(isinstance(n, ast.Assign) and calls and n.value is calls[0]
+                and ast.unparse(n.targets[0]) == f"{m.params[2]}.n_bins"
+                for n in ast.walk(m.node))
+    if not tg_ok:
+        problems.append("the bin count returned by the kernel is not stored "
+                        "as y.n_bins")
+    ctx.ob("D1.8", m, calls[0] if calls else m.node, not problems,
+           f"{cls.name}.decode passes (x, y, instance, instance.bin_width, "
+           "instance.bin_height, ...) to the kernel in its parameter order "
+           "and stores the returned bin count" if not problems else
+           "; ".join(problems), construct=f"{enc} kernel arguments")
